@@ -2,25 +2,31 @@
 
     Transcription of compiler/parser/types.go ([Frugal.validate] and everything it calls:
     the name-conflict loops, validateNamespaces, validateIncludes, validateConstants /
-    validateConstant, validateTypedefs with the circular-typedef marking loop,
+    validateConstant / findIdentifier, validateTypedefs with the circular-typedef marking loop,
     validateStructLike, validateServices = validateServiceTypes + validateServiceExtends +
-    Service.validate, validateScopes) and of compiler/parser/parser.go ([parseFrugal]: name
-    derivation, circular-include detection by file name, include resolution, validation after
-    the includes) over the parse-tree types of Model/ParserAst.v (C10's [frugal] record).
+    Service.validate, validateScopes, and the last pass validateValues = validateValue +
+    validateDefaults with underlyingScopedType (audit.go), valueKind, describeValue, findEnum,
+    findStructLike) and of compiler/parser/parser.go ([parseFrugal]: name derivation,
+    circular-include detection by cleaned path, the duplicate-file-name check, include resolution,
+    validation after the includes) over the parse-tree types of Model/ParserAst.v (C10's [frugal]
+    record).
 
     Every function returns the EXACT text of the Go error (byte for byte; the judge compares
     it with what the real code returned), a panic, or fuel exhaustion.  The loops that have no
     syntactic bound in Go (the marking loop [for progress], the extends walk, UnderlyingType,
-    the include recursion) take fuel; Proofs/CompilerValidateProofs.v shows the stated bounds
-    are always enough.
+    underlyingScopedType, the include recursion) take fuel; Proofs/CompilerValidateProofs.v shows
+    the stated bounds are always enough.
 
     The type-level questions (isValidType, the marking pass, UnderlyingType) are asked of the
     REDUCED file [reduce f incs] of Model/CompilerTotal.v, so that the theorems about typedef
-    resolution proved there apply to what this validation accepts.
+    resolution proved there apply to what this validation accepts.  The value pass reads enums,
+    struct fields and constants, which the reduced file does not have: it works on the parse trees
+    ([vscope] = a file with its ParsedIncludes) and Proofs relate its typedef walk to UnderlyingType.
 
     Assumed (guaranteed by the grammar, checked by the judge on every observed tree): strings
-    are ASCII; Type pointers of constants, typedefs, fields and operations are not nil.
-    Executable definitions only. *)
+    are ASCII; Type pointers of constants, typedefs, fields and operations are not nil.  Paths of
+    a program do not climb above the directory of the root file; file identity is the cleaned
+    path (no symbolic links).  Executable definitions only. *)
 From Coq Require Import String ZArith List Bool.
 From FV Require Import Base.Res Model.ParserStrings Model.ParserAst Model.Parser Model.ParserFsys.
 From FV Require Model.CompilerTotal.
@@ -171,25 +177,60 @@ Fixpoint check_includes (seen : list bytes) (l : list include) : vr :=
 (** * validateConstant *)
 Definition has_constant (f : frugal) (n : bytes) : bool := existsb (fun x => beqb n (c_name x)) (fr_constants f).
 
-Definition check_identifier (f : frugal) (incs : list (bytes * ftree)) (name : bytes) : vr :=
-  match split_on 46 name [] with
-  | [_] => if has_constant f name then ROk else RErr (cat [T "Referenced constant "; name; T " not found"])
-  | [inc; pn] =>
-    if has_enum_value f inc pn then ROk
-    else
-      match (if beqb inc [] then Some f else option_map ft_frugal (inc_get incs inc)) with
-      | None => RErr (cat [T "Include "; inc; T " not found"])
-      | Some fr =>
-        if has_constant fr pn then ROk
-        else RErr (cat [T "Referenced constant "; pn; T " from include "; inc; T " not found"])
+(** a file with its ParsedIncludes: the scope a type name is read in *)
+Definition vscope : Type := frugal * list (bytes * ftree).
+Definition scope_of_tree (t : ftree) : vscope := match t with FTree _ f incs => (f, incs) end.
+
+(** findEnumValue: the first enum of that name which declares the value *)
+Fixpoint find_enum_value (l : list enum) (en vn : bytes) : option (enum * enum_value) :=
+  match l with
+  | [] => None
+  | e :: r =>
+    if beqb en (en_name e) then
+      match find (fun v => beqb vn (ev_name v)) (en_values e) with
+      | Some v => Some (e, v)
+      | None => find_enum_value r en vn
       end
+    else find_enum_value r en vn
+  end.
+Definition find_constant (f : frugal) (n : bytes) : option constant := find (fun x => beqb n (c_name x)) (fr_constants f).
+
+(** IdentifierContext: a constant with the file which declares it, or an enum value *)
+Inductive ictx := IConst (decl : vscope) (c : constant) | IEnum (e : enum) (v : enum_value).
+
+(** findIdentifier: what the identifier names, or the diagnostic *)
+Definition find_identifier (f : frugal) (incs : list (bytes * ftree)) (name : bytes) : bytes + ictx :=
+  match split_on 46 name [] with
+  | [_] => match find_constant f name with
+           | Some c => inr (IConst (f, incs) c)
+           | None => inl (cat [T "Referenced constant "; name; T " not found"])
+           end
+  | [inc; pn] =>
+    match find_enum_value (fr_enums f) inc pn with
+    | Some (e, v) => inr (IEnum e v)
+    | None =>
+      match (if beqb inc [] then Some (f, incs) else option_map scope_of_tree (inc_get incs inc)) with
+      | None => inl (cat [T "Include "; inc; T " not found"])
+      | Some d =>
+        match find_constant (fst d) pn with
+        | Some c => inr (IConst d c)
+        | None => inl (cat [T "Referenced constant "; pn; T " from include "; inc; T " not found"])
+        end
+      end
+    end
   | [inc; en; vn] =>
     match option_map ft_frugal (inc_get incs inc) with
-    | Some fr => if has_enum_value fr en vn then ROk else RErr (cat [T "Invalid constant name "; name])
-    | None => RErr (cat [T "Invalid constant name "; name])
+    | Some fr => match find_enum_value (fr_enums fr) en vn with
+                 | Some (e, v) => inr (IEnum e v)
+                 | None => inl (cat [T "Invalid constant name "; name])
+                 end
+    | None => inl (cat [T "Invalid constant name "; name])
     end
-  | _ => RErr (cat [T "Invalid constant name "; name])
+  | _ => inl (cat [T "Invalid constant name "; name])
   end.
+
+Definition check_identifier (f : frugal) (incs : list (bytes * ftree)) (name : bytes) : vr :=
+  match find_identifier f incs name with inl m => RErr m | inr _ => ROk end.
 
 Definition check_constant (f : frugal) (incs : list (bytes * ftree)) (rf : CompilerTotal.frugal) (c : constant) : vr :=
   if negb (valid_ty rf (c_type c)) then RErr (cat [T "Invalid type "; type_name (c_type c)])
@@ -353,8 +394,191 @@ Definition check_scope (rf : CompilerTotal.frugal) (s : scope) : vr :=
                  else RErr (cat [T "Invalid operation type "; type_name (o_type o); T " for ";
                                  method_where (sc_name s) (o_name o)])) (sc_ops s)).
 
+(** * validateValues (constant values and default values against their declared types) *)
+(** typedefIndex[name]: the last declaration of a name *)
+Definition find_typedef (f : frugal) (n : bytes) : option typedef :=
+  CompilerTotal.lookup_last n (map (fun td => (td_name td, td)) (fr_typedefs f)).
+
+(** the file the name of a type is looked up in: the include it is prefixed with (None: no such
+    include), else the scope itself *)
+Definition declaring_file (sc : vscope) (name : bytes) : option vscope :=
+  let inc := CompilerTotal.include_name name in
+  if CompilerTotal.is_nil inc then Some sc else option_map scope_of_tree (inc_get (snd sc) inc).
+
+(** underlyingScopedType (audit.go): follow typedefs, each target read in the scope of the file
+    which declares the typedef; one unit of fuel per turn of the loop *)
+Fixpoint uscoped (fuel : nat) (sc : vscope) (t : ptype) : option (vscope * ptype) :=
+  match fuel with
+  | O => None
+  | S n =>
+    match declaring_file sc (type_name t) with
+    | None => Some (sc, t)
+    | Some d =>
+      match find_typedef (fst d) (CompilerTotal.param_name (type_name t)) with
+      | None => Some (sc, t)
+      | Some td => uscoped n d (td_type td)
+      end
+    end
+  end.
+
+(** findEnum, findStructLike *)
+Definition find_enum (sc : vscope) (name : bytes) : option enum :=
+  match declaring_file sc name with
+  | Some d => find (fun e => beqb (en_name e) (CompilerTotal.param_name name)) (fr_enums (fst d))
+  | None => None
+  end.
+Definition find_struct_like (sc : vscope) (name : bytes) : option (vscope * struct) :=
+  match declaring_file sc name with
+  | Some d =>
+    match find (fun x => beqb (s_name x) (CompilerTotal.param_name name))
+               (fr_structs (fst d) ++ fr_unions (fst d) ++ fr_exceptions (fst d)) with
+    | Some x => Some (d, x)
+    | None => None
+    end
+  | None => None
+  end.
+
+Definition k_integer : bytes := T "integer".
+Definition k_string : bytes := T "string".
+Definition int_names : list bytes := [s_i8; s_byte; s_i16; s_i32; s_i64].
+(** valueKind *)
+Definition value_kind (sc : vscope) (t : ptype) : bytes :=
+  let n := type_name t in
+  if existsb (beqb n) int_names then k_integer
+  else if beqb n s_string || beqb n s_binary then k_string
+  else if existsb (beqb n) [s_bool; s_double; s_list; s_set; s_map] then n
+  else match find_enum sc n with
+       | Some _ => cat [T "enum "; CompilerTotal.param_name n]
+       | None => cat [T "struct "; CompilerTotal.param_name n]
+       end.
+
+(** describeValue *)
+Definition describe (v : cvalue) : bytes :=
+  match v with
+  | CIdent s => cat [T "identifier "; s]
+  | CStr _ => T "a string"
+  | CBool _ => T "a bool"
+  | CInt z => cat [T "integer "; fmt_int z]
+  | CDouble _ => T "a double"
+  | CList _ => T "a list"
+  | CMap _ => T "a map"
+  | COther => T "no value"
+  end.
+
+Definition in_range (bits : Z) (z : Z) : bool := (- 2 ^ (bits - 1) <=? z) && (z <? 2 ^ (bits - 1)).
+
+Definition key_type (t : ptype) : option ptype := match t with PType _ k _ _ => k end.
+Definition elem_type (t : ptype) : option ptype := match t with PType _ _ v _ => v end.
+(** the loop over the fields of a struct literal's struct: the field(s) of that name; and [rall]
+    with the function outside the fixpoint (so that it can be used in the nested recursion over
+    values) *)
+Definition fields_named (chk : field -> vr) (name : bytes) : list field -> vr :=
+  fix go (fs : list field) : vr :=
+    match fs with
+    | [] => ROk
+    | fd :: r => if beqb (f_name fd) name then rand (chk fd) (fun _ => go r) else go r
+    end.
+Definition ralls {X} (p : X -> vr) : list X -> vr :=
+  fix go (l : list X) : vr := match l with [] => ROk | x :: t => rand (p x) (fun _ => go t) end.
+
+(** validateValue.  [home]: the file being validated (identifiers are looked up there);
+    [sc]: the scope the type is read in.  A nil element type would be dereferenced. *)
+Fixpoint check_value (fuel : nat) (home : vscope) (what : bytes) (sc : vscope) (t : ptype) (v : cvalue) {struct v} : vr :=
+  match uscoped fuel sc t with
+  | None => RFuel
+  | Some (sc', t') =>
+    let n := type_name t' in
+    let mismatch := RErr (cat [T "Invalid value for "; what; T ": expected "; type_string t'; T ", got "; describe v]) in
+    match v with
+    | CIdent name =>
+      match find_identifier (fst home) (snd home) name with
+      | inl m => RErr m
+      | inr (IConst decl c) =>
+        match uscoped fuel decl (c_type c) with
+        | None => RFuel
+        | Some (dsc, dt) =>
+          let expected := value_kind sc' t' in
+          let declared := value_kind dsc dt in
+          if beqb expected declared || (beqb expected s_double && beqb declared k_integer) then ROk else mismatch
+        end
+      | inr (IEnum e ev) =>
+        match find_enum sc' n with
+        | Some e' =>
+          if beqb (en_name e') (en_name e) && existsb (fun x => beqb (ev_name x) (ev_name ev)) (en_values e')
+          then ROk else mismatch
+        | None => mismatch
+        end
+      end
+    | CStr _ => if beqb n s_string || beqb n s_binary then ROk else mismatch
+    | CBool _ => if beqb n s_bool then ROk else mismatch
+    | CDouble _ => if beqb n s_double then ROk else mismatch
+    | CInt z =>
+      if beqb n s_i8 || beqb n s_byte then (if in_range 8 z then ROk else mismatch)
+      else if beqb n s_i16 then (if in_range 16 z then ROk else mismatch)
+      else if beqb n s_i32 then (if in_range 32 z then ROk else mismatch)
+      else if beqb n s_i64 || beqb n s_double then ROk
+      else match find_enum sc' n with
+           | Some e => if existsb (fun x => ev_value x =? z) (en_values e) then ROk else mismatch
+           | None => mismatch
+           end
+    | CList l =>
+      if beqb n s_list || beqb n s_set then
+        ralls (fun x => match elem_type t' with
+                       | Some et => check_value fuel home what sc' et x
+                       | None => RPanic
+                       end) l
+      else mismatch
+    | CMap l =>
+      if beqb n s_map then
+        ralls (fun kv => match key_type t' with
+                        | None => RPanic
+                        | Some kt =>
+                          rand (check_value fuel home what sc' kt (fst kv)) (fun _ =>
+                          match elem_type t' with
+                          | Some et => check_value fuel home what sc' et (snd kv)
+                          | None => RPanic
+                          end)
+                        end) l
+      else
+        match find_struct_like sc' n with
+        | None => mismatch
+        | Some (d, s) =>
+          ralls (fun kv =>
+                  let fields (name : bytes) :=
+                      fields_named (fun fd => check_value fuel home what d (f_type fd) (snd kv)) name (s_fields s) in
+                  match fst kv with
+                  | CStr name => fields name
+                  | CIdent name => fields name
+                  | k => RErr (cat [T "Invalid value for "; what; T ": expected a field name of "; type_string t';
+                                    T ", got "; describe k])
+                  end) l
+        end
+    | COther => mismatch
+    end
+  end.
+
+(** validateDefaults *)
+Definition check_defaults (fuel : nat) (home : vscope) (wh : bytes) (fs : list field) : vr :=
+  rall (fun fd => match f_default fd with
+                  | None => ROk
+                  | Some v => check_value fuel home (cat [T "field "; f_name fd; T " of "; wh]) home (f_type fd) v
+                  end) fs.
+
+(** validateValues *)
+Definition check_values (fuel : nat) (f : frugal) (incs : list (bytes * ftree)) : vr :=
+  let home : vscope := (f, incs) in
+  rand (rall (fun c => check_value fuel home (cat [T "constant "; c_name c]) home (c_type c) (c_value c)) (fr_constants f)) (fun _ =>
+  rand (rall (fun s => check_defaults fuel home (cat [T "struct "; s_name s]) (s_fields s))
+             (fr_structs f ++ fr_unions f ++ fr_exceptions f)) (fun _ =>
+        rall (fun sv => rall (fun m => let wh := cat [T "method "; method_where (sv_name sv) (m_name m)] in
+                                       rand (check_defaults fuel home wh (m_args m)) (fun _ =>
+                                             check_defaults fuel home wh (m_throws m))) (sv_methods sv))
+             (fr_services f))).
+
 (** * Frugal.validate *)
-Definition cvalidate (fuel : nat) (f : frugal) (incs : list (bytes * ftree)) : vr :=
+(** everything but the last pass: names, namespaces, includes, constants (type and top-level
+    identifier), typedefs, structs, services, scopes *)
+Definition cvalidate_decls (fuel : nat) (f : frugal) (incs : list (bytes * ftree)) : vr :=
   let rf := reduce f incs in
   rand (check_services [] (fr_services f)) (fun _ =>
   rand (check_scopes [] (fr_scopes f)) (fun _ =>
@@ -367,6 +591,10 @@ Definition cvalidate (fuel : nat) (f : frugal) (incs : list (bytes * ftree)) : v
   rand (rall (check_struct rf) (fr_exceptions f)) (fun _ =>
   rand (rall (check_service fuel f incs rf) (fr_services f)) (fun _ =>
         rall (check_scope rf) (fr_scopes f))))))))))).
+
+(** the last pass, validateValues, runs once the declarations have been validated *)
+Definition cvalidate (fuel : nat) (f : frugal) (incs : list (bytes * ftree)) : vr :=
+  rand (cvalidate_decls fuel f incs) (fun _ => check_values fuel f incs).
 
 (** fuel that is always enough for [cvalidate] (Proofs): the typedefs of the file and of what
     it includes, the number of files, the services of the file *)
@@ -406,7 +634,16 @@ Fixpoint includes_loop (rec : path -> pres) (dir : path) (l : list include) (acc
 Definition file_stem (p : path) : option bytes :=
   match split_on 46 (last p []) [] with [name; _] => Some name | _ => None end.
 
-Fixpoint cparse (fuel : nat) (fs : pfs) (p : path) (visited : list bytes) : pres :=
+(** the files being parsed (the chain of includes which leads to the current file): name and
+    cleaned path of each, outermost first (visitedIncludes, visitedPaths) *)
+Definition chain := list (bytes * path).
+Fixpoint dup_name (name : bytes) (c : chain) : option path :=
+  match c with
+  | [] => None
+  | (n, q) :: r => if beqb n name then Some q else dup_name name r
+  end.
+
+Fixpoint cparse (fuel : nat) (fs : pfs) (p : path) (visited : chain) : pres :=
   match fuel with
   | O => PFuel
   | S fuel' =>
@@ -415,19 +652,26 @@ Fixpoint cparse (fuel : nat) (fs : pfs) (p : path) (visited : list bytes) : pres
     | Some e =>
       match file_stem p with
       | Some name =>
-        if existsb (beqb name) visited then PErr (cat [T "Circular include: "; fmt_strings (visited ++ [name])])
+        if existsb (path_eqb p) (map snd visited) then
+          PErr (cat [T "Circular include: "; fmt_strings (map fst visited ++ [name])])
         else
-          match e with
-          | FSyntax msg => PErr msg
-          | FParsed f =>
-            match includes_loop (fun q => cparse fuel' fs q (visited ++ [name])) (removelast p) (fr_includes f) [] with
-            | inl e => e
-            | inr incs =>
-              match cvalidate (validate_fuel f incs) f incs with
-              | ROk => POk (FTree name (with_scopes f (sort_scopes (fr_scopes f))) incs)
-              | RErr m => PErr m
-              | RPanic => PPanic
-              | RFuel => PFuel
+          match dup_name name visited with
+          | Some q =>
+            PErr (cat [T "Duplicate file name "; name; T ": "; join_slash p; T " is included by way of "; join_slash q;
+                       T " (includes and generated code are named after the file name)"])
+          | None =>
+            match e with
+            | FSyntax msg => PErr msg
+            | FParsed f =>
+              match includes_loop (fun q => cparse fuel' fs q (visited ++ [(name, p)])) (removelast p) (fr_includes f) [] with
+              | inl e => e
+              | inr incs =>
+                match cvalidate (validate_fuel f incs) f incs with
+                | ROk => POk (FTree name (with_scopes f (sort_scopes (fr_scopes f))) incs)
+                | RErr m => PErr m
+                | RPanic => PPanic
+                | RFuel => PFuel
+                end
               end
             end
           end
@@ -486,3 +730,35 @@ Definition cvalidate_pinned (fuel : nat) (f : frugal) (incs : list (bytes * ftre
   rand (rall (check_struct_pinned rf) (fr_exceptions f)) (fun _ =>
   rand (rall (check_service_pinned f incs rf) (fr_services f)) (fun _ =>
         rall (check_scope rf) (fr_scopes f))))))))))).
+
+(** parseFrugal before the repair of C11-K14: a cycle is a repeated file NAME *)
+Fixpoint cparse_pinned (fuel : nat) (fs : pfs) (p : path) (visited : list bytes) : pres :=
+  match fuel with
+  | O => PFuel
+  | S fuel' =>
+    match pfs_get fs p with
+    | None => PErr (cat [T "open "; join_slash p; T ": no such file or directory"])
+    | Some e =>
+      match file_stem p with
+      | Some name =>
+        if existsb (beqb name) visited then PErr (cat [T "Circular include: "; fmt_strings (visited ++ [name])])
+        else
+          match e with
+          | FSyntax msg => PErr msg
+          | FParsed f =>
+            match includes_loop (fun q => cparse_pinned fuel' fs q (visited ++ [name])) (removelast p) (fr_includes f) [] with
+            | inl e => e
+            | inr incs =>
+              match cvalidate_pinned (validate_fuel f incs) f incs with
+              | ROk => POk (FTree name (with_scopes f (sort_scopes (fr_scopes f))) incs)
+              | RErr m => PErr m
+              | RPanic => PPanic
+              | RFuel => PFuel
+              end
+            end
+          end
+      | None => PErr (cat [T "Invalid file: "; join_slash p])
+      end
+    end
+  end.
+Definition cparse_program_pinned (fs : pfs) (root : path) : pres := cparse_pinned (S (length fs)) fs root [].
